@@ -727,6 +727,11 @@ func (pr *ProtoArray) maybeUpdateBestChildAndDescendant(parentIndex NodeIndex, c
 			} else if (!childLeadsToViableHead) && bestChildLeadsToViableHead {
 				// The best child leads to a viable head, but the child doesn't.
 				// *No change*
+			} else if !childLeadsToViableHead {
+				// Neither leads to a viable head: the parent has no best child.
+				// Picking one by weight would make the parent look like it does not lead to a viable head,
+				// even when the parent itself is viable.
+				changeToNone()
 			} else if child.Weight == bestChild.Weight {
 				// Tie-breaker of equal weights by root. (smaller hash wins)
 				if bytes.Compare(child.Ref.Root[:], bestChild.Ref.Root[:]) > 0 {
